@@ -20,6 +20,7 @@ import (
 type Mix struct {
 	Send, Dep, Recv, Replay, Replace, RepDep, Admin, Ledger, Multi int
 	DepValid, RecvBroken, ReplaceValid, AdminHolder, FaultPct   int
+	Rollback                                                    int // percent of steps that start a rollback probe
 	AdminTypes                                                  []string
 }
 
@@ -95,7 +96,51 @@ func replayOp(g *sim.G, label string) *sim.Op {
 	return op.WithMeta("vary", vary).WithMeta("of", fmt.Sprint(s.Idx))
 }
 
+// rollbackProbe returns a transaction whose first message changes a registry/flag and whose second
+// message fails (so the SDK discards both), followed by the same change on its own, which must then
+// behave exactly as if it had never been attempted.
+func rollbackProbe(g *sim.G, label string) []*sim.Op {
+	a := g.AdminOp(label+"/a", 100, []string{"AddRemoteTokenMessenger", "RemoveRemoteTokenMessenger", "LinkTokenPair", "UnlinkTokenPair", "EnableAttester", "DisableAttester",
+		"SetMaxBurnAmountPerMessage", "UpdateSignatureThreshold", "UpdateMaxMessageBodySize", "PauseBurningAndMinting", "UpdatePauser"})
+	// guaranteed to fail: nobody's pending-owner acceptance by an account that is not pending
+	by := sim.Acct(g.Acct(label + "/by"))
+	if g.W.Model.Pending != nil && *g.W.Model.Pending == by {
+		by = sim.Acct((sim.AcctOfBytes(sdk.MustAccAddressFromBech32(by)) + 1) % sim.NAccts)
+	}
+	b := sim.TxOp("admin:AcceptOwner", &types.MsgAcceptOwner{From: by})
+	return []*sim.Op{sim.Multi(a, b), cloneOp(a)}
+}
+
+// queuedOp pops an op queued by an earlier generator step of the same case.
+func queuedOp(g *sim.G) *sim.Op {
+	if g.W.Scratch == nil {
+		return nil
+	}
+	q, _ := g.W.Scratch["queue"].([]*sim.Op)
+	if len(q) == 0 {
+		return nil
+	}
+	g.W.Scratch["queue"] = q[1:]
+	return q[0]
+}
+
+func queueOps(g *sim.G, ops ...*sim.Op) {
+	if g.W.Scratch == nil {
+		g.W.Scratch = map[string]any{}
+	}
+	q, _ := g.W.Scratch["queue"].([]*sim.Op)
+	g.W.Scratch["queue"] = append(q, ops...)
+}
+
 func (m Mix) next(g *sim.G) *sim.Op {
+	if op := queuedOp(g); op != nil {
+		return op
+	}
+	if m.Rollback > 0 && g.Pct("rollbackprobe", m.Rollback) {
+		ops := rollbackProbe(g, "rb")
+		queueOps(g, ops[1:]...)
+		return ops[0]
+	}
 	total := m.Send + m.Dep + m.Recv + m.Replay + m.Replace + m.RepDep + m.Admin + m.Ledger + m.Multi
 	k := g.Int("op", 0, total-1)
 	pick := func(w int) bool {
